@@ -170,3 +170,159 @@ Theorem C07_insert_after_refuses : forall LF s tokens ref p t,
   In t tokens -> In t (abs s) ->
   insert_after LF s ref tokens = (s, Err ValueError).
 Proof. exact insert_after_refuses. Qed.
+
+(* ------------------------------------------------------------------------------------------------
+   Links to the plain-list models of the other layers (DESIGN 3.1: "every L2/L3 store operation is the
+   list operation L1 refines").  A document d of a list model represents the store s when
+   abs s = map (Pid id) d, Pid x = P (id x) being the store's token for the model token x (ids positive).
+   Each theorem says: what the model's list surgery computes is what the blocked store computes, for every
+   load factor; refusals agree (ValueError, store unchanged). *)
+From AB Require StoreLinkRepeated StoreLinkComments StoreLinkMisc.
+From AB Require Import StoreLink.
+
+(* Repeated.v / Fields.v (Fields.v calls the same Repeated.st_ functions) *)
+Theorem C07_link_Repeated_insert_after : forall LF, 1 <= LF -> forall s d, Inv s ->
+  abs s = map (Pid Repeated.tid) d -> ids_pos Repeated.tid d ->
+  forall ref ts, 0 < ref -> ids_pos Repeated.tid ts -> NoDup (map Repeated.tid ts) ->
+  match Repeated.st_insert_after ref ts d with
+  | Ok d' => let s' := fst (insert_after LF s (Some (P ref)) (map (Pid Repeated.tid) ts)) in
+             insert_after LF s (Some (P ref)) (map (Pid Repeated.tid) ts) = (s', Ok tt) /\ Inv s' /\
+             abs s' = map (Pid Repeated.tid) d' /\ (forall u, txt s' u = txt s u)
+  | Err e => e = ValueError /\ insert_after LF s (Some (P ref)) (map (Pid Repeated.tid) ts) = (s, Err ValueError)
+  end.
+Proof. exact StoreLinkRepeated.link_insert_after. Qed.
+
+Theorem C07_link_Repeated_insert_before : forall LF, 1 <= LF -> forall s d, Inv s ->
+  abs s = map (Pid Repeated.tid) d -> ids_pos Repeated.tid d ->
+  forall ref ts, 0 < ref -> ids_pos Repeated.tid ts -> NoDup (map Repeated.tid ts) ->
+  match Repeated.st_insert_before ref ts d with
+  | Ok d' => let s' := fst (insert_before LF s (Some (P ref)) (map (Pid Repeated.tid) ts)) in
+             insert_before LF s (Some (P ref)) (map (Pid Repeated.tid) ts) = (s', Ok tt) /\ Inv s' /\
+             abs s' = map (Pid Repeated.tid) d' /\ (forall u, txt s' u = txt s u)
+  | Err e => e = ValueError /\ insert_before LF s (Some (P ref)) (map (Pid Repeated.tid) ts) = (s, Err ValueError)
+  end.
+Proof. exact StoreLinkRepeated.link_insert_before. Qed.
+
+Theorem C07_link_Repeated_splice : forall LF, 1 <= LF -> forall s d, Inv s ->
+  abs s = map (Pid Repeated.tid) d -> ids_pos Repeated.tid d ->
+  forall ts first last d', ids_pos Repeated.tid ts -> NoDup (map Repeated.tid ts) ->
+  Repeated.st_splice ts first last d = Ok d' ->
+  let s' := fst (splice LF s (map (Pid Repeated.tid) ts) (Some (P first)) (Some (P last))) in
+  splice LF s (map (Pid Repeated.tid) ts) (Some (P first)) (Some (P last)) = (s', Ok tt) /\ Inv s' /\
+  abs s' = map (Pid Repeated.tid) d' /\ (forall u, txt s' u = txt s u).
+Proof. exact StoreLinkRepeated.link_splice. Qed.
+
+Theorem C07_link_Repeated_remove : forall LF, 1 <= LF -> forall s d, Inv s ->
+  abs s = map (Pid Repeated.tid) d -> ids_pos Repeated.tid d ->
+  forall first last d', Repeated.st_remove first last d = Ok d' ->
+  let s' := fst (remove LF s (P first) (Some (P last))) in
+  remove LF s (P first) (Some (P last)) = (s', Ok tt) /\ Inv s' /\
+  abs s' = map (Pid Repeated.tid) d' /\ (forall u, txt s' u = txt s u).
+Proof. exact StoreLinkRepeated.link_remove. Qed.
+
+Theorem C07_link_Repeated_absent : forall LF s d, Inv s ->
+  abs s = map (Pid Repeated.tid) d -> ids_pos Repeated.tid d ->
+  forall first last ts, 0 < first -> 0 < last ->
+  (~ In first (Repeated.ids d) \/ ~ In last (Repeated.ids d)) ->
+  Repeated.st_splice ts first last d = Err ValueError /\
+  splice LF s (map (Pid Repeated.tid) ts) (Some (P first)) (Some (P last)) = (s, Err ValueError).
+Proof. exact StoreLinkRepeated.link_absent. Qed.
+
+Theorem C07_link_Repeated_get_prev_next : forall (LF : Z) s d, Inv s ->
+  abs s = map (Pid Repeated.tid) d -> ids_pos Repeated.tid d -> forall i, 0 < i ->
+  Repeated.st_get_prev i d = match get_prev s (P i) with Ok o => Ok (option_map Zpos o) | Err e => Err e end /\
+  Repeated.st_get_next i d = match get_next s (P i) with Ok o => Ok (option_map Zpos o) | Err e => Err e end.
+Proof. exact StoreLinkRepeated.link_get_prev_next. Qed.
+
+Theorem C07_link_Repeated_iter : forall s d, Inv s -> abs s = map (Pid Repeated.tid) d ->
+  forall first last, Repeated.st_iter first last d <> [] ->
+  iter_range s (P first) (P last) = Ok (map (Pid Repeated.tid) (Repeated.st_iter first last d)).
+Proof. exact StoreLinkRepeated.link_iter. Qed.
+
+Definition ex_rdoc : Repeated.doc := map (fun i => Repeated.mktok i Repeated.KOther []) [1; 2; 3; 4; 5; 6; 7].
+Example C07_link_Repeated_nonvacuous :
+  Inv ex_s /\ abs ex_s = map (Pid Repeated.tid) ex_rdoc /\ ids_pos Repeated.tid ex_rdoc /\
+  Repeated.st_splice [Repeated.mktok 9 Repeated.KOther []] 2 5 ex_rdoc
+    = Ok (map (fun i => Repeated.mktok i Repeated.KOther []) [1; 9; 6; 7]).
+Proof.
+  split; [exact (proj1 ex_inv)|]. split; [rewrite (proj2 ex_inv); reflexivity|]. split; [|reflexivity].
+  unfold ids_pos, ex_rdoc. repeat constructor.
+Qed.
+
+(* Comments.v *)
+Theorem C07_link_Comments_splice : forall LF, 1 <= LF -> forall s d, Inv s ->
+  abs s = map (Pid Comments.t_id) d -> ids_pos Comments.t_id d ->
+  forall new ref del_end d', ids_pos Comments.t_id new -> NoDup (map Comments.t_id new) ->
+  (forall x, In x new -> ~ In (Comments.t_id x) (map Comments.t_id d) \/
+      exists rng, Comments.iter_range d ref del_end = Some rng /\ In (Comments.t_id x) (map Comments.t_id rng)) ->
+  Comments.splice d new ref del_end = Some d' ->
+  let s' := fst (splice LF s (map (Pid Comments.t_id) new) (Some (P ref)) (Some (P del_end))) in
+  splice LF s (map (Pid Comments.t_id) new) (Some (P ref)) (Some (P del_end)) = (s', Ok tt) /\ Inv s' /\
+  abs s' = map (Pid Comments.t_id) d' /\ (forall u, txt s' u = txt s u).
+Proof. exact StoreLinkComments.link_splice. Qed.
+
+Theorem C07_link_Comments_splice_absent : forall LF s d, Inv s ->
+  abs s = map (Pid Comments.t_id) d -> ids_pos Comments.t_id d ->
+  forall new ref del_end, 0 < ref -> 0 < del_end ->
+  (~ In ref (map Comments.t_id d) \/ ~ In del_end (map Comments.t_id d)) ->
+  Comments.splice d new ref del_end = None /\
+  splice LF s (map (Pid Comments.t_id) new) (Some (P ref)) (Some (P del_end)) = (s, Err ValueError).
+Proof. exact StoreLinkComments.link_splice_absent. Qed.
+
+Theorem C07_link_Comments_iter_range : forall s d, Inv s -> abs s = map (Pid Comments.t_id) d ->
+  forall first last rng, Comments.iter_range d first last = Some rng -> rng <> [] ->
+  iter_range s (P first) (P last) = Ok (map (Pid Comments.t_id) rng).
+Proof. exact StoreLinkComments.link_iter_range. Qed.
+
+Theorem C07_link_Comments_walk : forall s d, Inv s -> abs s = map (Pid Comments.t_id) d ->
+  forall start a t b, Comments.split_at start d = Some (a, t :: b) ->
+  get_next s (P start) = Ok (option_map (Pid Comments.t_id) (match b with [] => None | x :: _ => Some x end)) /\
+  get_prev s (P start) = Ok (option_map (Pid Comments.t_id) (match a with [] => None | x :: r => Some (last r x) end)) /\
+  Comments.walk d start false = Some b /\ Comments.walk d start true = Some (rev a).
+Proof. exact StoreLinkComments.link_walk_step. Qed.
+
+Definition ex_cdoc : Comments.doc := map (fun i => Comments.mktok i Comments.KOther [] false) [1; 2; 3; 4; 5; 6; 7].
+Example C07_link_Comments_nonvacuous :
+  Inv ex_s /\ abs ex_s = map (Pid Comments.t_id) ex_cdoc /\ ids_pos Comments.t_id ex_cdoc /\
+  Comments.splice ex_cdoc (map (fun i => Comments.mktok i Comments.KOther [] false) [4; 3; 2]) 2 4
+    = Some (map (fun i => Comments.mktok i Comments.KOther [] false) [1; 4; 3; 2; 5; 6; 7]).
+Proof.
+  split; [exact (proj1 ex_inv)|]. split; [rewrite (proj2 ex_inv); reflexivity|]. split; [|reflexivity].
+  unfold ids_pos, ex_cdoc. repeat constructor.
+Qed.
+
+(* position-based models: Spacing.v, NumExpr.v, Builder.v.  Their results are positional splices of the
+   document, and the positional store call computes the same positional splice of abs s. *)
+Theorem C07_link_positional_call : forall LF s N p q s' r, 1 <= LF -> Inv s -> (p <= q <= length (abs s))%nat ->
+  NoDup N -> (forall t, In t N -> ~ In t (abs s)) ->
+  StoreLinkMisc.pos_call LF s N p q = (s', r) ->
+  r = Ok tt /\ Inv s' /\ abs s' = StoreLinkMisc.gsplice (abs s) N p q /\ (forall t, txt s' t = txt s t).
+Proof. exact StoreLinkMisc.pos_call_spec. Qed.
+
+Theorem C07_link_Spacing_set_after : forall d j new,
+  exists p q, (p <= q <= length d)%nat /\ Spacing.set_raw_spacing_after d j new = StoreLinkMisc.gsplice d new p q.
+Proof. exact StoreLinkMisc.link_spacing_after. Qed.
+Theorem C07_link_Spacing_set_before : forall d i new,
+  exists p q, (p <= q <= length d)%nat /\ Spacing.set_raw_spacing_before d i new = StoreLinkMisc.gsplice d new p q.
+Proof. exact StoreLinkMisc.link_spacing_before. Qed.
+
+Theorem C07_link_NumExpr_inplace : forall k self other r, NumExpr.inplace k self other = Ok r ->
+  exists L R, (L = [] \/ L = [NumExpr.TLp]) /\
+    NumExpr.store_toks r = NumExpr.pre self ++ L ++ NumExpr.re (NumExpr.body self) ++ R ++ NumExpr.post self /\
+    let p := length (NumExpr.pre self) in let q := (p + length (NumExpr.re (NumExpr.body self)))%nat in
+    NumExpr.store_toks r = StoreLinkMisc.gsplice (StoreLinkMisc.gsplice (NumExpr.store_toks self) R q q) L p p.
+Proof. exact StoreLinkMisc.link_numexpr_inplace. Qed.
+
+Theorem C07_link_Builder_store : forall LF tk built, 1 <= LF -> clean tk -> NoDup built ->
+  let s' := fst (insert_after LF (empty_store tk) None built) in
+  insert_after LF (empty_store tk) None built = (s', Ok tt) /\ Inv s' /\ abs s' = built /\
+  (forall k1 k2 a b, nth_error built k1 = Some a -> nth_error built k2 = Some b -> (k1 <= k2)%nat ->
+     iter_range s' a b = Ok (firstn (k2 + 1 - k1) (skipn k1 built))).
+Proof. exact StoreLinkMisc.link_builder_store. Qed.
+
+Example C07_link_positional_nonvacuous : Inv ex_s /\ (2 <= 5 <= length (abs ex_s))%nat /\
+  NoDup [8; 9]%positive /\ (forall t, In t [8; 9]%positive -> ~ In t (abs ex_s)).
+Proof.
+  split; [exact (proj1 ex_inv)|]. rewrite (proj2 ex_inv). split; [cbn; lia|].
+  split; [repeat constructor; cbn; intuition discriminate|]. intros t [<-|[<-|[]]]; cbn; intuition discriminate.
+Qed.
